@@ -398,6 +398,35 @@ constexpr auto chrono(int seed) -> long long
     return acc;
 }
 
+// cstr.hpp on arrays that are exactly as large as the C standard requires: inside a constant expression a read behind
+// the terminator or a store behind the destination is out of the array's bounds, also when the array is a member or
+// has a neighbour on the stack
+constexpr auto cstr(int seed) -> long long
+{
+    char dst[7] = {};                    // "abcdef" + terminator: exact fit
+    etl::strcpy(dst, "abc");
+    etl::strcat(dst, "def");
+    char const* cdst = dst;
+    char small[3] = {};
+    etl::strncpy(small, dst, 3);         // exactly 3 characters, no terminator written
+    char pad[5] = {'x', 'x', 'x', 'x', 'x'};
+    etl::strncpy(pad, "ab", 5);          // pads with nulls up to exactly 5
+    char cat[6] = {'a', 'b', 0, 'x', 'x', 'x'};
+    etl::strncat(cat, "cdefgh", 3);      // "abcde" + terminator: exact fit
+    long long acc = static_cast<long long>(etl::strlen(cdst)) + etl::strcmp(cdst, "abcdeg") + etl::strncmp(small, "abd", 3);
+    acc += (etl::strchr(cdst, 'f') - cdst) + (etl::strrchr(cdst, 0) - cdst) + (etl::strstr(cdst, "ef") - cdst);
+    acc += static_cast<long long>(etl::strspn(cdst, "abc") + etl::strcspn(cdst, "f")) + (etl::strpbrk(cdst, "xe") - cdst);
+    acc += (etl::strchr(cdst, 'q') == nullptr ? 1 : 0) + (etl::strstr(cdst, "fg") == nullptr ? 1 : 0) + (etl::strstr(cdst, "") - cdst);
+    acc += etl::strncmp(cat, "abcde", 6) + pad[4] + small[2];
+    wchar_t wd[4] = {};
+    etl::wcscpy(wd, L"ab");
+    etl::wcscat(wd, L"c");
+    wchar_t const* cwd = wd;
+    acc += static_cast<long long>(etl::wcslen(cwd)) + etl::wcscmp(cwd, L"abd") + (etl::wcschr(cwd, L'c') - cwd) + (etl::wcsstr(cwd, L"bc") - cwd);
+    acc += etl::isalpha('a' + (seed % 26)) + etl::tolower('A') + etl::isdigit(0xFF) + etl::isspace(-1) + etl::toupper('z');
+    return acc;
+}
+
 // default-INITIALISED (not value-initialised) objects inside a constant expression: reading a member that has no
 // initialiser is not a constant expression (the constant evaluator is exact about indeterminate values).
 // inplace_vector is not here: its size member has no initialiser (known finding KF-C02-inplace-vector-...).
@@ -566,7 +595,7 @@ static long long battery(int which, int seed)
 constexpr int n_batteries = 16;
 
 // the constexpr batteries by number; ce_table holds their values as computed by the constant evaluator
-constexpr int ce_count    = 13;
+constexpr int ce_count    = 14;
 constexpr int ce_seeds[3] = {0, 1, 7};
 constexpr auto ce_run(int which, int seed) -> long long
 {
@@ -583,14 +612,15 @@ constexpr auto ce_run(int which, int seed) -> long long
     case 9: return ce::views(seed);
     case 10: return ce::wrap(seed);
     case 11: return ce::chrono(seed);
-    default: return ce::dflt(seed);
+    case 12: return ce::dflt(seed);
+    default: return ce::cstr(seed);
     }
 }
 #if defined(C02_CE)   // variant `ce` only: a battery that is UB for the constant evaluator makes THAT variant ill-formed,
                       // the other variants still build and run the same batteries at run time
 #define C02_ROW(w) {ce_run(w, 0), ce_run(w, 1), ce_run(w, 7)}
 constexpr long long ce_table[ce_count][3] = {C02_ROW(0), C02_ROW(1), C02_ROW(2), C02_ROW(3), C02_ROW(4), C02_ROW(5),
-                                             C02_ROW(6), C02_ROW(7), C02_ROW(8), C02_ROW(9), C02_ROW(10), C02_ROW(11), C02_ROW(12)};
+                                             C02_ROW(6), C02_ROW(7), C02_ROW(8), C02_ROW(9), C02_ROW(10), C02_ROW(11), C02_ROW(12), C02_ROW(13)};
 #endif
 
 template <typename T, typename F>
@@ -701,6 +731,17 @@ bool vh::run_case(std::string const& op, Toks& in, Out& impl, Out& ref)
         else if (what == "sv_nt") { default_init_probe<etl::static_vector<NonTrivial, 4>>(impl, sized); }
         else if (what == "iv_int") { default_init_probe<etl::inplace_vector<int, 4>>(impl, sized); }
         else if (what == "iv_nt") { default_init_probe<etl::inplace_vector<NonTrivial, 4>>(impl, sized); }
+        else if (what == "iv_cap_254") { default_init_probe<etl::inplace_vector<char, 254>>(impl, sized); }
+        else if (what == "iv_cap_255") { default_init_probe<etl::inplace_vector<char, 255>>(impl, sized); }
+        else if (what == "iv_cap_256") { default_init_probe<etl::inplace_vector<char, 256>>(impl, sized); }
+        else if (what == "iv_cap_65534") { default_init_probe<etl::inplace_vector<char, 65534>>(impl, sized); }
+        else if (what == "iv_cap_65535") { default_init_probe<etl::inplace_vector<char, 65535>>(impl, sized); }
+        else if (what == "iv_cap_1") { default_init_probe<etl::inplace_vector<char, 1>>(impl, sized); }
+        else if (what == "sv_cap_0") { default_init_probe<etl::static_vector<char, 0>>(impl, sized); }
+        else if (what == "sv_cap_254") { default_init_probe<etl::static_vector<char, 254>>(impl, sized); }
+        else if (what == "sv_cap_255") { default_init_probe<etl::static_vector<char, 255>>(impl, sized); }
+        else if (what == "sv_cap_256") { default_init_probe<etl::static_vector<char, 256>>(impl, sized); }
+        else if (what == "sv_cap_65535") { default_init_probe<etl::static_vector<char, 65535>>(impl, sized); }
         else if (what == "str7") { default_init_probe<etl::inplace_string<7>>(impl, strng); }
         else if (what == "str15") { default_init_probe<etl::inplace_string<15>>(impl, strng); }
         else if (what == "str16") { default_init_probe<etl::inplace_string<16>>(impl, strng); }
@@ -748,7 +789,9 @@ bool vh::run_case(std::string const& op, Toks& in, Out& impl, Out& ref)
         else { return false; }
         // reference leg: the standard's default-constructed state, written out per kind
         if (what == "sv_int" || what == "sv_nt" || what == "iv_int" || what == "iv_nt" || what == "static_set" || what == "flat_set"
-            || what == "flat_multiset" || what == "stack") { ref.tok("ok").num(0).b(true); }
+            || what == "flat_multiset" || what == "stack" || what.rfind("iv_cap_", 0) == 0 || what.rfind("sv_cap_", 0) == 0) {
+            ref.tok("ok").num(0).b(true);
+        }
         else if (what.rfind("str", 0) == 0 && what != "string_view") { ref.tok("ok").num(0).b(true).num(0); }
         else if (what.rfind("wstr", 0) == 0 && what != "wstring_view") { ref.tok("ok").num(0).b(true).num(0); }
         else if (what == "string_view" || what == "wstring_view" || what == "span" || what == "span_static0" || what == "mdspan") {
